@@ -314,9 +314,9 @@ func ruleHostsNormalised(c *Ctx, rule string) {
 // ruleHostsGuards is C14.R3.
 func ruleHostsGuards(c *Ctx, rule string) {
 	f := c.P.MustFunc("mux.(*Hosts).Match")
-	vop := c.P.MustFunc("mux.validOptionalPort")
-	c.R.Rule(c.R.Property+"."+rule, 2, "the host is stripped of a valid ':port' and of IPv6 brackets only")
-	if len(an.Calls(f, func(n string, _ *ssa.CallCommon) bool { return n == an.FuncKey(vop) })) == 0 {
+	vop := c.P.Func("mux.validOptionalPort")
+	c.R.Rule(c.R.Property+"."+rule, 1, "the host is stripped of a valid ':port' and of IPv6 brackets only")
+	if vop == nil || len(an.Calls(f, func(n string, _ *ssa.CallCommon) bool { return n == an.FuncKey(vop) })) == 0 {
 		c.R.Add(rule, c.fk(f), "cut:port/behind:validOptionalPort(rest)", c.P.Pos(f.Pos()), false, "Hosts.Match no longer validates the text after the last ':' as a port before cutting it: hosts with a non-numeric 'port' are accepted")
 	}
 	an.AllInstrs(f, func(in ssa.Instruction) {
@@ -333,7 +333,7 @@ func ruleHostsGuards(c *Ctx, rule string) {
 					if !ok || !truth {
 						return false
 					}
-					if g := an.StaticCallee(&call.Call); g != vop {
+					if g := an.StaticCallee(&call.Call); vop == nil || g != vop {
 						return false
 					}
 					arg, ok := call.Call.Args[0].(*ssa.Slice)
